@@ -120,6 +120,7 @@ theorem off_system_verbatim (E : Env σ) (cfg : RCfg) (w : World σ) (conds : Li
   simp only [applySystem, hskip, maySubstitute, hoff, Bool.false_eq_true, ↓reduceIte, hbg]
   cases (E.cmd w.db command).2 with
   | spawnErr => rfl
+  | signal sig out => rfl
   | exit code out => by_cases hc : code = 0 <;> simp [hc]
 
 /-! ### 4. lookup order: special names, runner locals, environment -/
@@ -330,6 +331,7 @@ theorem on_system_simple (E : Env σ) (br : SubstBridge) (v : VarEnv) (hE : Impl
   simp only [applySystem, hskip, maySubstitute, hon, hok, Bool.false_eq_true, ↓reduceIte, hbg]
   cases (E.cmd w.db (br.dec (simpleReplace v (br.enc command)))).2 with
   | spawnErr => rfl
+  | signal sig out => rfl
   | exit code out => by_cases hc : code = 0 <;> simp [hc]
 
 /-! ### 8. the test directory -/
